@@ -432,7 +432,7 @@ func (e *Eng) reuseObligations() {
 			bad = append(bad, p+" ["+cls+"]")
 		}
 	}
-	e.add("reuse#reads-before-writes", funcKey(pm), []string{"C15"}, len(bad) == 0 && len(keys) > 0,
+	e.add("reuse#reads-before-writes", funcKey(pm), []string{"C15", "C07"}, len(bad) == 0 && len(keys) > 0,
 		fmt.Sprintf("value carried over: %s | benign: %s", strings.Join(bad, "; "), strings.Join(benign, "; ")))
 	// newInternalParsedJson: a reused internal object gets the caller's ParsedJson and fresh options
 	nip := e.fn("newInternalParsedJson")
